@@ -90,7 +90,7 @@ Definition val_encodable (f : tfield) (v : tval) : Prop :=
 Theorem parse_field_encodable c f st v st' :
   parse_field c f st = Ok (v, st') -> val_encodable f v.
 Proof.
-  destruct f as [maxv| |tokmax ctormax ne| | |sc|]; cbn [parse_field]; intros H.
+  destruct f as [maxv| |tokmax ctormax ne| | |sc| |v6]; cbn [parse_field]; intros H.
   - unfold get_uint, as_uint in H.
     destruct (get_unescaped st) as [[t s1]| |]; cbn [bind fst snd] in H; try discriminate.
     destruct (as_int t 10) as [z| |]; cbn [bind fst snd] in H; try discriminate.
@@ -110,6 +110,7 @@ Proof.
     inversion H; subst. cbn [val_encodable]. lia.
   - destruct (get_name c st) as [[n s1]| |]; cbn [bind fst snd] in H; try discriminate.
     inversion H; subst. exact Logic.I.
+  - destruct v; exact Logic.I.
   - destruct v; exact Logic.I.
   - destruct v; exact Logic.I.
   - destruct v; exact Logic.I.
